@@ -278,6 +278,9 @@ func (w *World) genTxs(parent *TNode, maxTx int, pBad int) (txs []*transaction.T
 					if nout > 0 {
 						a = w.rng.UpTo(room / uint64(nout))
 					}
+					if w.rng.Intn(6) == 0 || (w.forceZeroOut && i == 0) {
+						a = 0 // an output that moves nothing still counts as an incoming event of its recipient
+					}
 					outs[i] = transaction.Output{Recipient: rcpt, PaymentId: w.rng.UpTo(3), Amount: a}
 				}
 				if corrupt == "overdraft" && nout > 0 {
